@@ -82,6 +82,11 @@ func (fv *FuncVerifier) evalBuiltin(name string, call *ast.CallExpr, st *State) 
 		for i, a := range call.Args[1:] {
 			v := fv.evalTo(a, et, st)
 			arr = store(arr, mk(sortInt, "(+ %s %d)", n.S, i), v)
+			if fv.specMode == 0 && !fv.termMode {
+				fv.u.declare("fun:wit", "(declare-fun wit (Int) Bool)\n(assert (forall ((x Int)) (! (wit x) :pattern ((wit x)))))")
+				// the position of an appended element is a candidate witness for `exists j int`
+				st.assume(mk(sortBool, "(wit (+ %s %d))", n.S, i))
+			}
 		}
 		return []Term{fv.def("app", slMk(s.Sort, arr, mk(sortInt, "(+ %s %d)", n.S, len(call.Args)-1)))}
 	case "copy":
